@@ -51,7 +51,17 @@ def one_run(scen, tier, verif_seed, index):
     seed = run_seed(verif_seed, scen.prop, tier, index)
     rng = Rng(seed)
     profile = scen.profiles[index % len(scen.profiles)]
-    case = scen.generate(rng, tier, profile)
+    from . import spec as _spec
+
+    _spec.RECORD_KNOBS["int_column"] = rng.fork("record-knobs").pick([None] * 8 + ["npu8", "npi8", "npi16", "npi64", "int"])
+    try:
+        case = scen.generate(rng, tier, profile)
+    finally:
+        _spec.RECORD_KNOBS["int_column"] = None
+    # swarm knobs every scenario understands (World.build / World.ship read them)
+    env = rng.fork("environment")
+    case.setdefault("vary_label_order", env.chance(0.3))
+    case.setdefault("json_sort_keys", env.chance(0.3))
     case["prop"] = scen.prop
     case["profile"] = profile
     case["seed"] = seed
